@@ -167,6 +167,8 @@ CHECK_DEADLOCK FALSE
             prog.append({"op": term, "arg": L({"header": b"Cookie%d" % len(prog), "parameter": b"p%d" % len(prog)}.get(term, b""))})
         pay = lambda: bytes(rng.randrange(256) for _ in range(rng.choice([0, 1, 2, 3, 4, 5, 15, 16, 17, 100, 4096 if not q else 300])))  # noqa: E731
         c2v = {"metadata": pay(), "id": b"%d" % rng.randrange(1 << 31), "output": pay()}
+        if nblocks >= 2 and _ % 3 == 0:
+            c2v[kinds[rng.randrange(1, nblocks)]] = b""  # an empty payload in a later block: the block still starts from nothing
         masks = [L(rng.randbytes(4)) for _ in range(nmask)] or [[0, 0, 0, 0]]
         base = rng.choice([b"", b"/a", b"/submit.php", b"/x/y"])
         init_params = {b"keep": b"1"} if rng.random() < 0.3 else {}
